@@ -30,7 +30,7 @@ example : ∃ cmd : List Nat, (∀ c ∈ cmd, c < 128) ∧ cmd ≠ [] := ⟨[42,
 follow the reply stay in the buffer (stale bytes are dropped first when `discard` is set). -/
 theorem scpi_ask_roundtrip (cfg : Cfg) (t : Tr) (cmd : List Nat) (reply rest : Bytes) (to : Option Nat) (discard : Bool)
     (hterm : cfg.respTerm ≠ []) (hcmd : ∀ c ∈ cmd, c < 128) (hreply : ∀ b ∈ reply, b.toNat < 128)
-    (hfirst : FirstAtEnd cfg.respTerm reply)
+    (hfirst : FirstAtEnd cfg.respTerm reply) (hmsg : t.message = false)
     (hrx : discard = true ∨ t.rx = [])
     (hpend : t.pending = reply ++ cfg.respTerm ++ rest) :
     (ask cfg t cmd to discard).2 = .ok (reply.map UInt8.toNat)
@@ -41,11 +41,11 @@ theorem scpi_ask_roundtrip (cfg : Cfg) (t : Tr) (cmd : List Nat) (reply rest : B
   simp only [List.append_assoc] at hsplit
   cases discard with
   | true =>
-    simp [ask, write, encodeAscii, all_lt_of cmd hcmd, Tr.write, Tr.discard, Tr.readUntil, hpend, hsplit, hpost,
+    simp [ask, write, encodeAscii, all_lt_of cmd hcmd, Tr.write, Tr.discard, Tr.readUntil, hpend, hsplit, hpost, hmsg,
       written_app, written]
   | false =>
     have hrx' : t.rx = [] := by simpa using hrx
-    simp [ask, write, encodeAscii, all_lt_of cmd hcmd, Tr.write, Tr.readUntil, hpend, hsplit, hpost, hrx',
+    simp [ask, write, encodeAscii, all_lt_of cmd hcmd, Tr.write, Tr.readUntil, hpend, hsplit, hpost, hrx', hmsg,
       written_app, written]
 
 -- non-vacuity: stale bytes discarded, reply with a CR inside, CR LF terminator, next reply left in the buffer
@@ -57,6 +57,31 @@ example : (ask { cmdTerm := [10], respTerm := [13, 10] } { rx := [57, 13, 10], p
 example : FirstAtEnd [13, 10] [49, 13, 50] ∧ FirstAtEnd [10] [] := by
   constructor <;> intro k hk <;> (simp at hk; (try omega)) <;> (have : k = 0 ∨ k = 1 ∨ k = 2 := by omega) <;>
     rcases this with rfl | rfl | rfl <;> decide
+
+/-- `ask` over a **message-based** transport (USBTMC, GPIB, VXI-11 without term char: `read_until` hands out the whole
+device message): the driver gets the message minus its final terminator — *all* of it, however many times the
+terminator occurs inside the payload. -/
+theorem scpi_ask_message_roundtrip (cfg : Cfg) (t : Tr) (cmd : List Nat) (reply : Bytes) (to : Option Nat) (discard : Bool)
+    (hterm : cfg.respTerm ≠ []) (hcmd : ∀ c ∈ cmd, c < 128) (hreply : ∀ b ∈ reply, b.toNat < 128)
+    (hmsg : t.message = true) (hrx : discard = true ∨ t.rx = [])
+    (hpend : t.pending = reply ++ cfg.respTerm) :
+    (ask cfg t cmd to discard).2 = .ok (reply.map UInt8.toNat)
+    ∧ (ask cfg t cmd to discard).1.rx = []
+    ∧ written (ask cfg t cmd to discard).1.log = written t.log ++ (cmd.map UInt8.ofNat ++ cfg.cmdTerm) := by
+  have hpost := askPost_ok cfg reply hterm hreply
+  have hne : ¬ (reply = [] ∧ cfg.respTerm = []) := fun h => hterm h.2
+  cases discard with
+  | true =>
+    simp [ask, write, encodeAscii, all_lt_of cmd hcmd, Tr.write, Tr.discard, Tr.readUntil, hpend, hpost, hmsg, hne,
+      written_app, written]
+  | false =>
+    have hrx' : t.rx = [] := by simpa using hrx
+    simp [ask, write, encodeAscii, all_lt_of cmd hcmd, Tr.write, Tr.readUntil, hpend, hpost, hrx', hmsg, hne,
+      written_app, written]
+
+-- non-vacuity: "line1\nline2\n" as one message: both lines reach the driver
+example : (ask { cmdTerm := [10], respTerm := [10] } { rx := [], pending := [76, 49, 10, 76, 50, 10], message := true } [63] none false).2.toOption
+    = some [76, 49, 10, 76, 50] := by decide
 
 /-- a reply without the terminator at its end is an error, never data -/
 theorem scpi_missing_terminator_errors (cfg : Cfg) (resp : Bytes) (h : endsWith resp cfg.respTerm = false) :
